@@ -80,7 +80,7 @@ def make_tasks(tier, seed, variant='c01'):
     encs = ['dense', 'csr', 'csc']
     tasks = []
     n_query = 18
-    k_cfg = (7 if quick else 40) if variant == 'c01' else (8 if quick else 60)
+    k_cfg = (6 if quick else 40) if variant == "c01" else (8 if quick else 60)
     for i, shape in enumerate(fx.SHAPES):
         if quick:
             my_encs = [encs[(i + seed) % 3]] if variant == 'c03' else \
